@@ -275,6 +275,120 @@ func init() {
 		for _, st := range loop.Body.List {
 			body = append(body, promPrintNode(fset, st))
 		}
+		// ---- a matcher that accepts the empty value: asked inverted, its bit not required (after `fix: a PromQL matcher
+		// that accepts the empty value …`); without that statement every matcher needs a row ("row-required")
+		absentLabel := "row-required"
+		var optClauses []clause
+		const inverseStmt = `if _matcher.Matches("") { inverse, err := _matcher.Inverse() if err != nil { return nil, err } _matcher = inverse } else { required |= 1 << i }`
+		if len(body) > 0 && strings.HasPrefix(body[0], "if _matcher.Matches(") {
+			if body[0] != inverseStmt {
+				return "", fmt.Errorf("fingerprintsQuery: the test for matchers that accept the empty value is %q, expected %q", body[0], inverseStmt)
+			}
+			if loop.Key == nil || promPrintNode(fset, loop.Key) != "i" {
+				return "", fmt.Errorf("fingerprintsQuery: the loop index is not i")
+			}
+			absentLabel = "inverse"
+			body = body[1:]
+			loop.Body.List = loop.Body.List[1:]
+			// the statements after the loop: the shared planner when every bit is required, optionalLabelsQuery otherwise
+			var after []string
+			seen := false
+			for _, st := range fd.Body.List {
+				if st == ast.Stmt(loop) {
+					seen = true
+					continue
+				}
+				if seen {
+					after = append(after, promPrintNode(fset, st))
+				}
+			}
+			wantAfter := []string{
+				`if len(matchers) > 0 && required == (1<<len(matchers))-1 { plannerStreamSelect := logql_transpiler.NewStreamSelectPlanner(labelNames, ops, values) return plannerStreamSelect.Process(ctx) }`,
+				`return optionalLabelsQuery(ctx, labelNames, ops, values, required)`}
+			if strings.Join(after, "\n") != strings.Join(wantAfter, "\n") {
+				return "", fmt.Errorf("fingerprintsQuery: statements after the loop %q, expected %q", after, wantAfter)
+			}
+			od := findFunc(f, "", "optionalLabelsQuery")
+			if od == nil {
+				return "", fmt.Errorf("optionalLabelsQuery not found")
+			}
+			var osw *ast.SwitchStmt
+			var rest []string
+			for _, st := range od.Body.List {
+				if rs, ok := st.(*ast.RangeStmt); ok {
+					if promPrintNode(fset, rs.X) != "labelNames" || promPrintNode(fset, rs.Key) != "i" || promPrintNode(fset, rs.Value) != "name" || len(rs.Body.List) != 3 {
+						return "", fmt.Errorf("optionalLabelsQuery: loop not recognised")
+					}
+					if promPrintNode(fset, rs.Body.List[0]) != "var valClause sql.SQLCondition" ||
+						promPrintNode(fset, rs.Body.List[2]) != `clauses[i] = sql.And(sql.Eq(sql.NewRawObject("key"), sql.NewStringVal(name)), valClause)` {
+						return "", fmt.Errorf("optionalLabelsQuery: clause construction not recognised")
+					}
+					sw, ok := rs.Body.List[1].(*ast.SwitchStmt)
+					if !ok || promPrintNode(fset, sw.Tag) != "ops[i]" {
+						return "", fmt.Errorf("optionalLabelsQuery: switch ops[i] not found")
+					}
+					osw = sw
+					continue
+				}
+				rest = append(rest, promPrintNode(fset, st))
+			}
+			wantRest := []string{
+				`clauses := make([]sql.SQLCondition, len(labelNames))`,
+				`fpRequest := sql.NewSelect(). Select(sql.NewRawObject("fingerprint")). From(sql.NewRawObject(ctx.TimeSeriesGinTableName)). AndWhere( sql.Ge(sql.NewRawObject("date"), sql.NewStringVal(logql_transpiler.FormatFromDate(ctx.From))), logql_transpiler.GetTypes(ctx)). GroupBy(sql.NewRawObject("fingerprint"))`,
+				`if required != 0 { fpRequest.AndWhere(sql.Or(clauses...)) }`,
+				`if len(clauses) > 0 { fpRequest.AndHaving(sql.Eq(logql_transpiler.NewSqlBitSetAnd(clauses), sql.NewIntVal(required))) }`,
+				`return fpRequest, nil`}
+			if osw == nil || strings.Join(rest, "\n") != strings.Join(wantRest, "\n") {
+				return "", fmt.Errorf("optionalLabelsQuery: body %q, expected %q", rest, wantRest)
+			}
+			for _, st := range osw.Body.List {
+				cc := st.(*ast.CaseClause)
+				if cc.List == nil {
+					continue // default: NotSupportedError
+				}
+				if len(cc.List) != 1 || len(cc.Body) != 1 {
+					return "", fmt.Errorf("optionalLabelsQuery: unexpected case shape")
+				}
+				op, ok := strLit(cc.List[0])
+				if !ok {
+					return "", fmt.Errorf("optionalLabelsQuery: case is not a string literal")
+				}
+				as, ok := cc.Body[0].(*ast.AssignStmt)
+				if !ok || len(as.Lhs) != 1 || promPrintNode(fset, as.Lhs[0]) != "valClause" || len(as.Rhs) != 1 {
+					return "", fmt.Errorf("optionalLabelsQuery: case %q does not assign valClause", op)
+				}
+				call, ok := as.Rhs[0].(*ast.CallExpr)
+				if !ok || len(call.Args) != 2 {
+					return "", fmt.Errorf("optionalLabelsQuery: case %q: unexpected value clause", op)
+				}
+				fn, ok := selName(call.Fun, "sql")
+				if !ok || cmp[fn] == "" {
+					return "", fmt.Errorf("optionalLabelsQuery: case %q: unknown comparison", op)
+				}
+				c := clause{op: op, fn: cmp[fn]}
+				lhs, rhs := promPrintNode(fset, call.Args[0]), promPrintNode(fset, call.Args[1])
+				switch {
+				case lhs == `sql.NewRawObject("val")` && rhs == `sql.NewStringVal(values[i])`:
+				case lhs == `logql_transpiler.NewSqlMatch(sql.NewRawObject("val"), values[i])` && strings.HasPrefix(rhs, "sql.NewIntVal(") && strings.HasSuffix(rhs, ")"):
+					c.match = true
+					if _, err := fmt.Sscanf(rhs, "sql.NewIntVal(%d)", &c.rhs); err != nil {
+						return "", fmt.Errorf("optionalLabelsQuery: case %q: %s is not an integer literal", op, rhs)
+					}
+				default:
+					return "", fmt.Errorf("optionalLabelsQuery: case %q compares %s with %s: shape not recognised", op, lhs, rhs)
+				}
+				optClauses = append(optClauses, c)
+			}
+			// NewSqlMatch builds the node the shared planner builds
+			_, mf, err := parseFile("reader/logql/logql_transpiler_v2/clickhouse_planner/sql_misc.go")
+			if err != nil {
+				return "", err
+			}
+			nm := findFunc(mf, "", "NewSqlMatch")
+			if nm == nil || len(nm.Body.List) != 1 || promPrintNode(token.NewFileSet(), nm.Body.List[0]) != "return &sqlMatch{col: col, pattern: pattern}" {
+				return "", fmt.Errorf("clickhouse_planner.NewSqlMatch: shape not recognised")
+			}
+		}
 		head := []string{"matcher := parser.LabelMatcher{Node: _matcher}", "labelNames = append(labelNames, matcher.GetLabel())", "ops = append(ops, matcher.GetOp())"}
 		for i, w := range head {
 			if i >= len(body) || body[i] != w {
@@ -367,6 +481,16 @@ func init() {
 		b.WriteString("/-- StreamSelectPlanner.Process: operator ↦ (SQL comparison, left side is match(val, pattern), integer right side) -/\n")
 		b.WriteString("def opClauses : List (String × (String × Bool × Int)) := [")
 		for i, c := range clauses {
+			if i > 0 {
+				b.WriteString(", ")
+			}
+			fmt.Fprintf(&b, "(%s, (%s, %v, %d))", leanStr(c.op), leanStr(c.fn), c.match, c.rhs)
+		}
+		b.WriteString("]\n/-- fingerprintsQuery: \"inverse\" = a matcher that accepts the empty value is asked inverted and its bit must stay clear; \"row-required\" = every matcher needs an index row (the code as it was written) -/\n")
+		fmt.Fprintf(&b, "def absentLabel : String := %s\n", leanStr(absentLabel))
+		b.WriteString("/-- optionalLabelsQuery: operator ↦ value clause, same format as opClauses (empty when the function does not exist) -/\n")
+		b.WriteString("def optClauses : List (String × (String × Bool × Int)) := [")
+		for i, c := range optClauses {
 			if i > 0 {
 				b.WriteString(", ")
 			}
